@@ -33,6 +33,12 @@ func libEffects(f *types.Func) ([]string, bool) {
 		return []string{"consumed"}, true
 	case full == "(*bytes.Reader).Len", full == "(*bufio.Reader).Peek":
 		return nil, true
+	case full == "(context.Context).Err":
+		return []string{"ctxdone"}, true
+	case full == "github.com/filecoin-project/go-leb128.FromUInt64", full == "(github.com/ipfs/go-cid.Cid).Bytes":
+		return []string{"bytes"}, true
+	case full == "(github.com/ipfs/go-cid.Cid).ByteLen":
+		return nil, true
 	case full == "github.com/ipfs/go-cid.CidFromReader":
 		return []string{"consumed"}, true
 	case full == "io.CopyN":
@@ -408,6 +414,37 @@ func (u *Unit) libModel(st *State, e *ast.CallExpr, callee *types.Func, ca callA
 		}
 		st.assume(implies(eq(err.S, "0"), and(eq(bt.S, fmt.Sprintf("(select (rd.content %s) %s)", ca.recv.S, posI)), "(< "+oldPos+" "+u.sizeAsInt("(rd.size "+ca.recv.S+")")+")")))
 		return Term{Tuple: []Term{bt, err}}, true
+	case "github.com/filecoin-project/go-leb128.FromUInt64":
+		// unsigned LEB128 == Go uvarint: fresh slice holding the canonical encoding
+		x := ca.args[0]
+		n := u.uvlen(x.S)
+		blk := c.fresh("blk", fmt.Sprintf("(Array %s %s)", c.idxSort(), c.sortOf(u.byteT())))
+		st.assume(u.uvarintAtFacts(blk, c.idxConst(0), x.S))
+		r := u.allocBlock(st, u.byteT(), blk)
+		return Term{S: fmt.Sprintf("(mk_slice %s %s %s %s)", r, c.idxConst(0), n, n), T: sig.Results().At(0).Type()}, true
+	case "(github.com/ipfs/go-cid.Cid).Bytes", "(github.com/ipfs/go-cid.Cid).ByteLen":
+		// the byte form of a CID is a pure function of the CID value: cid.bytelen(c) bytes cid.byte(c, k)
+		u.declareCidGhost()
+		cv := ca.recv.S
+		ln := "(cid.bytelen " + cv + ")"
+		st.assume(c.idxLe(c.idxConst(0), ln))
+		if callee.Name() == "ByteLen" {
+			return Term{S: ln, T: types.Typ[types.Int]}, true
+		}
+		r := u.allocBlock(st, u.byteT(), "(cid.bytes "+cv+")")
+		return Term{S: fmt.Sprintf("(mk_slice %s %s %s %s)", r, c.idxConst(0), ln, ln), T: sig.Results().At(0).Type()}, true
+	case "(context.Context).Err":
+		// monotone: once a context reports an error it keeps reporting one
+		h := u.ghostHeap("ctxdone")
+		cur := u.heapRead(st, h)
+		old := fmt.Sprintf("(select %s %s)", cur, ca.recv.S)
+		nv := c.fresh("ctxdone", "Int")
+		st.assume(and("(<= 0 "+nv+")", "(<= "+nv+" 1)", "(>= "+nv+" "+old+")"))
+		u.heapWrite(st, h, fmt.Sprintf("(store %s %s %s)", cur, ca.recv.S, nv))
+		err := Term{S: c.fresh("err", "Int"), T: sig.Results().At(0).Type()}
+		st.assume(u.externalErr(err.S))
+		st.assume(eq(not(eq(err.S, "0")), eq(nv, "1")))
+		return err, true
 	case "(*bufio.Reader).Peek":
 		// (buf, err): no bytes consumed; err == nil ==> len(buf) == n and buf is the content at the current position
 		n := ca.args[0]
@@ -424,8 +461,10 @@ func (u *Unit) libModel(st *State, e *ast.CallExpr, callee *types.Func, ca callA
 			st.assume(implies(and(eq(err.S, "0"), c.idxLe(c.idxConst(0), nI)), "(<= (+ "+pos+" "+nI+") (rd.size "+ca.recv.S+"))"))
 			u.c.n++
 			k := fmt.Sprintf("k_q%d", u.c.n)
-			st.assume(fmt.Sprintf("(forall ((%s Int)) %s)", k, implies(and("(<= 0 "+k+")", "(< "+k+" "+sLen(buf.S)+")"),
-				eq(fmt.Sprintf("(select %s (+ %s %s))", u.sliceBlock(st, buf), sOff(buf.S), k), fmt.Sprintf("(select (rd.content %s) (+ %s %s))", ca.recv.S, pos, k)))))
+			pblk := u.sliceBlock(st, buf)
+			rel := "(- " + k + " " + sOff(buf.S) + ")"
+			st.assume(fmt.Sprintf("(forall ((%s Int)) (! %s :pattern ((select %s %s))))", k, implies(and("(<= 0 "+rel+")", "(< "+rel+" "+sLen(buf.S)+")"),
+				eq(fmt.Sprintf("(select %s %s)", pblk, k), fmt.Sprintf("(select (rd.content %s) (+ %s %s))", ca.recv.S, pos, rel))), pblk, k))
 		}
 		return Term{Tuple: []Term{buf, err}}, true
 	case "github.com/ipfs/go-cid.CidFromReader":
@@ -583,6 +622,12 @@ func (u *Unit) bumpCount(st *State, name, ref, by, ok string) {
 	st.assume(implies(ok, eq(nv, "(+ "+old+" "+byI+")")))
 	st.assume(and("(<= "+old+" "+nv+")", "(<= "+nv+" (+ "+old+" "+byI+"))"))
 	u.heapWrite(st, h, fmt.Sprintf("(store %s %s %s)", cur, ref, nv))
+}
+
+func (u *Unit) declareCidGhost() {
+	c := u.c
+	c.declareFun("cid.bytelen", "(S_cid_Cid) "+c.idxSort())
+	c.declareFun("cid.bytes", fmt.Sprintf("(S_cid_Cid) (Array %s %s)", c.idxSort(), c.sortOf(u.byteT())))
 }
 
 func (u *Unit) declareReaderGhost() {
@@ -823,8 +868,10 @@ func (u *Unit) sortSliceModel(st *State, e *ast.CallExpr, ca callArgs) (Term, bo
 	oka, _, _ := keyOf(at(oldBlk, a))
 	okb, _, _ := keyOf(at(oldBlk, b))
 	rng := and(c.idxLe(zero, a), c.idxLt(a, b), c.idxLt(b, sLen(s.S)))
-	st.assume(implies(fmt.Sprintf("(forall ((%s %s) (%s %s)) %s)", a, c.idxSort(), b, c.idxSort(), implies(rng, not(eq(oka, okb)))),
-		fmt.Sprintf("(forall ((%s %s) (%s %s)) %s)", a, c.idxSort(), b, c.idxSort(), implies(rng, not(eq(ka, kb))))))
+	if u.ct == nil || !u.ct.Options["sort-no-distinct"] {
+		st.assume(implies(fmt.Sprintf("(forall ((%s %s) (%s %s)) %s)", a, c.idxSort(), b, c.idxSort(), implies(rng, not(eq(oka, okb)))),
+			fmt.Sprintf("(forall ((%s %s) (%s %s)) %s)", a, c.idxSort(), b, c.idxSort(), implies(rng, not(eq(ka, kb))))))
+	}
 	u.eng.noteFuncLit(u, fl)
 	return Term{Tuple: []Term{}}, true
 }
@@ -866,6 +913,9 @@ func (u *Unit) readerFacts(st *State, rd, oldPos string, buf Term, n string) {
 	k := fmt.Sprintf("k_q%d", u.c.n)
 	st.assume(fmt.Sprintf("(forall ((%s Int)) %s)", k, implies(and("(<= 0 "+k+")", "(< "+k+" "+n+")"),
 		eq(fmt.Sprintf("(select %s (+ %s %s))", blk, sOff(buf.S), k), fmt.Sprintf("(select (rd.content %s) (+ %s %s))", rd, oldPos, k)))))
+	rel := "(- " + k + " " + sOff(buf.S) + ")"
+	st.assume(fmt.Sprintf("(forall ((%s Int)) (! %s :pattern ((select %s %s))))", k, implies(and("(<= 0 "+rel+")", "(< "+rel+" "+n+")"),
+		eq(fmt.Sprintf("(select %s %s)", blk, k), fmt.Sprintf("(select (rd.content %s) (+ %s %s))", rd, oldPos, rel))), blk, k))
 	u.c.n++
 	k2 := fmt.Sprintf("k_q%d", u.c.n)
 	st.assume(fmt.Sprintf("(forall ((%s Int)) (and (<= 0 (select (rd.content %s) %s)) (<= (select (rd.content %s) %s) 255)))", k2, rd, k2, rd, k2))
@@ -932,6 +982,10 @@ func (u *Unit) readAtModel(st *State, e *ast.CallExpr, r, p, off Term, sig *type
 	k := fmt.Sprintf("k_q%d", u.c.n)
 	st.assume(fmt.Sprintf("(forall ((%s %s)) %s)", k, c.idxSort(), implies(and(c.idxLe(zero, k), c.idxLt(k, n.S)),
 		eq(fmt.Sprintf("(select %s %s)", blk, c.idxAdd(sOff(p.S), k)), fmt.Sprintf("(select (rd.content %s) %s)", r.S, c.idxAdd(offI, k))))))
+	// the same fact in absolute form (index = position in the block) so that reads of p's elements trigger the instantiation
+	rel := c.idxSub(k, sOff(p.S))
+	st.assume(fmt.Sprintf("(forall ((%s %s)) (! %s :pattern ((select %s %s))))", k, c.idxSort(), implies(and(c.idxLe(zero, rel), c.idxLt(rel, n.S)),
+		eq(fmt.Sprintf("(select %s %s)", blk, k), fmt.Sprintf("(select (rd.content %s) %s)", r.S, c.idxAdd(offI, rel)))), blk, k))
 	if !c.bv {
 		u.c.n++
 		k2 := fmt.Sprintf("k_q%d", u.c.n)
@@ -1015,7 +1069,15 @@ func (u *Unit) externalCall(st *State, e *ast.CallExpr, callee *types.Func, ca c
 		// counters of reference-typed arguments move forward arbitrarily; a pointer to a repository struct may reach others
 		reach := false
 		for _, a := range args {
-			if a.T == nil || u.c.sortOf(a.T) != "Int" {
+			if a.T == nil {
+				continue
+			}
+			switch a.T.Underlying().(type) {
+			case *types.Pointer, *types.Interface, *types.Chan, *types.Signature, *types.Map:
+				if u.c.sortOf(a.T) != "Int" {
+					continue
+				}
+			default:
 				continue
 			}
 			if pt, ok := a.T.Underlying().(*types.Pointer); ok {
@@ -1040,7 +1102,7 @@ func (u *Unit) externalCall(st *State, e *ast.CallExpr, callee *types.Func, ca c
 	allocBefore := st.alloc
 	u.bumpAlloc(st)
 	rs := u.freshResults(st, sig, "x_"+callee.Name())
-	if strings.HasPrefix(callee.Name(), "New") && len(rs) >= 1 {
+	if n := callee.Name(); (strings.HasPrefix(n, "New") || strings.HasPrefix(n, "Open") || strings.HasPrefix(n, "Create")) && len(rs) >= 1 {
 		// library convention (trusted): constructors return freshly allocated objects
 		if _, isPtr := sig.Results().At(0).Type().Underlying().(*types.Pointer); isPtr {
 			st.assume(or(eq(rs[0].S, "0"), "(>= "+rs[0].S+" "+allocBefore+")"))
@@ -1083,6 +1145,20 @@ var readOnlyExternalFull = map[string]bool{
 
 // externalIface: interface types whose implementations we treat as external objects (no callbacks into heaps we model).
 func (eng *Engine) externalIface(t types.Type) bool {
+	// a repository-declared interface made only of io methods (e.g. interface{io.ReaderAt; io.Closer}) is as external as they are
+	if it, ok := t.Underlying().(*types.Interface); ok && it.NumMethods() > 0 {
+		allIO := true
+		for i := 0; i < it.NumMethods(); i++ {
+			switch it.Method(i).Name() {
+			case "Read", "ReadAt", "Write", "WriteAt", "Close", "Seek", "ReadByte", "Size", "Len", "Stat", "Sync":
+			default:
+				allIO = false
+			}
+		}
+		if allIO {
+			return true
+		}
+	}
 	s := types.TypeString(t, nil)
 	switch s {
 	case "github.com/rpcpool/yellowstone-faithful/indexmeta.Decoder":
